@@ -13,17 +13,19 @@ let rec int_of_nat = function O -> 0 | S n -> 1 + int_of_nat n
 let hexval c = match c with
   | '0'..'9' -> Char.code c - 48 | 'a'..'f' -> Char.code c - 87 | 'A'..'F' -> Char.code c - 55
   | _ -> failwith "bad hex"
-let unhex (s : string) : n list =
+let unhex (s : Stdlib.String.t) : n list =
   let l = String.length s / 2 in
   List.init l (fun i -> n_of_int (hexval s.[2*i] * 16 + hexval s.[2*i+1]))
-let to_string (l : n list) : string =
+let to_string (l : n list) : Stdlib.String.t =
   let b = Buffer.create 64 in
   List.iter (fun c -> Buffer.add_char b (Char.chr (int_of_n c))) l; Buffer.contents b
-let of_string (s : string) : n list = List.init (String.length s) (fun i -> n_of_int (Char.code s.[i]))
+let of_string (s : Stdlib.String.t) : n list = List.init (String.length s) (fun i -> n_of_int (Char.code s.[i]))
 
-let stages : (string * (string list -> n list)) list = [
+let stages : (Stdlib.String.t * (Stdlib.String.t list -> n list)) list = [
   "scan", (fun f -> show_tokens (scan (unhex (List.nth f 0))));
   "split", (fun f -> show_pieces (split_statements (unhex (List.nth f 0))));
+  "parse", (fun f -> show_parse (unhex (List.nth f 0)));
+  "spans", (fun f -> show_spans (unhex (List.nth f 0)));
 ]
 
 let () =
